@@ -28,10 +28,18 @@ Blame ==
   @@ "cb.se"      :> {"C03"}
   @@ "cb.pb"      :> {"C03", "C05"}
   @@ "cb.pe"      :> {"C03"}
+  @@ "cb.pb.failed" :> {"C03", "C04", "C06"}
+  @@ "cb.fb"      :> {"C03", "C13"}
+  @@ "cb.fe"      :> {"C03", "C13"}
+  @@ "cb.pb.stream" :> {"C03", "C13"}
+  @@ "cb.name"    :> {"C03"}
   @@ "cb.inst"    :> {"C07"}
   @@ "cb.inc"     :> {"C07"}
   @@ "dn.recreate" :> {"C07"}
   @@ "exit.loop"  :> {"C03"}
+  @@ "exit.loop.closed" :> {"C03", "C05"}
+  @@ "exit.loop.callback" :> {"C03"}
+  @@ "cb.pb.undrained" :> {"C04", "C05", "C03"}
   @@ "exit.how"   :> {"C06"}
   @@ "oe.actor.clone" :> {"C15"} @@ "oe.actor.downgrade" :> {"C15"} @@ "oe.actor.upgrade" :> {"C15"}
   @@ "oe.actor.sender" :> {"C15"} @@ "oe.actor.caller" :> {"C15"} @@ "oe.actor.weak_sender" :> {"C15"}
@@ -82,6 +90,8 @@ Blame ==
   @@ "eff.nested" :> {"C09"} @@ "eff.nested.res" :> {"C09"}
   @@ "oe.res.publish" :> {"C09"} @@ "oe.res.bpublish" :> {"C09"} @@ "oe.res.bsubscribe" :> {"C09"} @@ "oe.res.bunsubscribe" :> {"C09"}
   @@ "oe.ready.publish" :> {"C09"} @@ "oe.actor.publish" :> {"C09"}
+  @@ "un.flush" :> {"C12", "C02"} @@ "un.resp" :> {"C02"} @@ "un.await" :> {"C04", "C02"} @@ "un.join" :> {"C17", "C02"}
+  @@ "un.loop.closed" :> {"C05"} @@ "un.loop.deq" :> {"C02", "C05"} @@ "un.loop" :> {"C02"} @@ "un.timer" :> {"C10"} @@ "un.adv" :> {"C10", "C11"}
   @@ "blk.timer"  :> {"C10"}
   @@ "exit.timer" :> {"C10"}
   @@ "tf.state"   :> {"C10", "C07"}
